@@ -72,6 +72,9 @@ func newFuzzStore(sysName, state string, opts SysOpts, seed int64) (*fuzzStore, 
 	x := NewExec(sys, NewConc(seed, 0, false))
 	x.Conc.small = true
 	x.Timeout = 15 * time.Second
+	if opts.HostBucket {
+		x.Addr = hostStyle("!s3.test")
+	}
 	fs.x = x
 	put := func(b, k, atom string) error {
 		return mustStatus(x.Do(Op{"op": "PutObject", "b": b, "k": fromBytes(k), "body": []interface{}{atom}, "meta": []interface{}{}}), 200)
@@ -103,25 +106,25 @@ func newFuzzStore(sysName, state string, opts SysOpts, seed int64) (*fuzzStore, 
 		if v := o2.Header.Get("x-amz-version-id"); v != "" {
 			r := newReq("DELETE", "/bkt1/k3")
 			r.Query.Set("versionId", v)
-			x.Serve(r)
+			x.serveAddr(r)
 		}
 		put("bkt1", "d/k4", "a6")
 		// pending uploads with gaps
 		r := newReq("POST", "/bkt1/k1")
 		r.Query.Set("uploads", "")
 		var in xInitiate
-		xml.Unmarshal(x.Serve(r).Body, &in)
+		xml.Unmarshal(x.serveAddr(r).Body, &in)
 		fs.uid = in.UploadID
 		for _, n := range []int{1, 3} {
 			rp := newReq("PUT", "/bkt1/k1")
 			rp.Query.Set("uploadId", fs.uid)
 			rp.Query.Set("partNumber", strconv.Itoa(n))
 			rp.setBody([]byte(strings.Repeat("p", 10+n)))
-			x.Serve(rp)
+			x.serveAddr(rp)
 		}
 		r2 := newReq("POST", "/bkt1/d/k5")
 		r2.Query.Set("uploads", "")
-		x.Serve(r2)
+		x.serveAddr(r2)
 	}
 	if fs.uid == "" {
 		fs.uid = "1"
@@ -139,16 +142,16 @@ func (fs *fuzzStore) fingerprint() string {
 	for _, q := range []string{"", "versions", "uploads", "versioning"} {
 		r := newReq("GET", "/bkt1")
 		r.RawQ = q
-		o := fs.x.Serve(r)
+		o := fs.x.serveAddr(r)
 		if o.Timeout || o.Panic != "" {
 			return "!broken"
 		}
 		fmt.Fprintf(&sb, "%d|%s|", o.Status, stripVolatile(o.Body))
 	}
-	o := fs.x.Serve(newReq("GET", "/"))
+	o := fs.x.serveAddr(newReq("GET", "/"))
 	fmt.Fprintf(&sb, "%d|%s", o.Status, stripVolatile(o.Body))
 	r := newReq("GET", "/bkt1/k1")
-	o = fs.x.Serve(r)
+	o = fs.x.serveAddr(r)
 	fmt.Fprintf(&sb, "|%d|%s", o.Status, md5hex(o.Body))
 	return sb.String()
 }
@@ -183,17 +186,17 @@ func (fs *fuzzStore) canary() string {
 		body := []byte("canary body " + b)
 		r := newReq("PUT", "/"+b+"/canary-key")
 		r.setBody(body)
-		if o := x.Serve(r); o.Status != 200 {
+		if o := x.serveAddr(r); o.Status != 200 {
 			return fmt.Sprintf("put %s/canary-key -> %d %s timeout=%v panic=%v", b, o.Status, o.ErrCode(), o.Timeout, o.Panic != "")
 		}
-		if o := x.Serve(newReq("GET", "/"+b+"/canary-key")); o.Status != 200 || !bytes.Equal(o.Body, body) {
+		if o := x.serveAddr(newReq("GET", "/"+b+"/canary-key")); o.Status != 200 || !bytes.Equal(o.Body, body) {
 			return fmt.Sprintf("get %s/canary-key -> %d, %d bytes", b, o.Status, len(o.Body))
 		}
-		if o := x.Serve(newReq("DELETE", "/"+b+"/canary-key")); o.Status != 204 {
+		if o := x.serveAddr(newReq("DELETE", "/"+b+"/canary-key")); o.Status != 204 {
 			return fmt.Sprintf("delete %s/canary-key -> %d", b, o.Status)
 		}
 		r2 := newReq("GET", "/"+b)
-		if o := x.Serve(r2); o.Status != 200 {
+		if o := x.serveAddr(r2); o.Status != 200 {
 			return fmt.Sprintf("list %s -> %d %s", b, o.Status, o.ErrCode())
 		}
 	}
@@ -486,6 +489,9 @@ func cmdFuzzReq(args []string) {
 func runFuzzOne(st *fuzzStore, q *fReq) *fObs {
 	ob := &fObs{Sys: st.sys.Name, State: st.state, Req: *q}
 	r := st.build(q)
+	if st.x.Addr != nil {
+		st.x.Addr(r)
+	}
 	o := st.x.Serve(r)
 	ob.Panic = o.Panic != ""
 	ob.Timeout = o.Timeout
@@ -518,3 +524,14 @@ func runFuzzOne(st *fuzzStore, q *fReq) *fObs {
 }
 
 func init() { commands["fuzzreq"] = cmdFuzzReq }
+
+// serveAddr applies the addressing mode (if any) before serving.
+func (x *Exec) serveAddr(r *Req) *Observed {
+	if x.Addr != nil {
+		x.Addr(r)
+		if r.Skip {
+			return &Observed{Status: 200}
+		}
+	}
+	return x.Serve(r)
+}
